@@ -88,9 +88,32 @@ def mutants(repo, files):
                     yield f, ln, line, new
 
 
+def mutants_v2(repo, files):
+    """second operator family: a single-line statement deleted (assignment, increment, call, continue/break), and an `if`
+    condition forced to true / false"""
+    stmt = re.compile(r"^\s*(?:[\w\.\[\]\*]+(?:,\s*[\w\.\[\]\*]+)*\s*(?:[-+|&^*/%]?=)\s*[^{]*|[\w\.\[\]]+(?:\+\+|--)|[\w\.]+\(.*\)|continue|break)\s*$")
+    for f in files:
+        src = open(os.path.join(repo, f)).read().split("\n")
+        depth_ok = False
+        for ln, line in enumerate(src):
+            s = line.strip()
+            if s.startswith("func "):
+                depth_ok = True
+            if not depth_ok or not s or s.startswith("//"):
+                continue
+            code = code_part(line)
+            if stmt.match(code) and not s.startswith(("return", "defer", "go ", "var ", "case ", "default")) and ":=" not in code:
+                yield f, ln, line, line[:len(line) - len(line.lstrip())] + "// deleted: " + s
+            m = re.match(r"^(\s*(?:\} else )?if )(.*)( \{\s*)$", code)
+            if m and ";" not in m.group(2):
+                yield f, ln, line, m.group(1) + "true || " + m.group(2) + m.group(3)
+                yield f, ln, line, m.group(1) + "false && " + m.group(2) + m.group(3)
+
+
 def main():
     ap = argparse.ArgumentParser()
     ap.add_argument("out")
+    ap.add_argument("--ops", default="v1")
     ap.add_argument("--files", default=",".join(FILES))
     ap.add_argument("--limit", type=int, default=0)
     ap.add_argument("--shard", default="0/1")
@@ -112,7 +135,8 @@ def main():
         pass
     n = 0
     try:
-        for k, (f, ln, old, new) in enumerate(mutants(wt, a.files.split(","))):
+        gen = mutants_v2 if a.ops == "v2" else mutants
+        for k, (f, ln, old, new) in enumerate(gen(wt, a.files.split(","))):
             mid = hashlib.sha1(("%s:%d:%s" % (f, ln, new)).encode()).hexdigest()[:10]
             if int(mid, 16) % sn != si or mid in done:
                 continue
